@@ -117,10 +117,10 @@ def obligations(tier):
 
     def add(name, d, Ns, leafs, strats, split, required=True, wall=8.0):
         obs.append(Ob(name + "-knn", kd(d, Ns, leafs, strats, do_query=True, do_radius=False), covers=COVERS, split=split,
-                      path_wall_s=wall, required=required,
+                      path_wall_s=wall, required=required, budget_is_violation=True,
                       note="d=%d N in %s leaf sizes %s strategies %s: build, leaf partition, k-nearest query" % (d, Ns, leafs, strats)))
         obs.append(Ob(name + "-radius", kd(d, Ns, leafs, strats, do_query=False, do_radius=True), covers=COVERS, split=split,
-                      path_wall_s=wall, required=required,
+                      path_wall_s=wall, required=required, budget_is_violation=True,
                       note="d=%d N in %s leaf sizes %s strategies %s: build, leaf partition, radius query" % (d, Ns, leafs, strats)))
     if q:
         add("kd-1d-n3", 1, [1, 2, 3], [1, 2], STRATS, 7)
